@@ -746,6 +746,11 @@ where
             SlotFlag::Stable
         };
 
+        if is_component && slots.is_some() && !elems.is_empty() {
+            // with `v-slots` the children always become the `default` slot beside its entries
+            return self.wrap_children(elems, slot_flag, slots);
+        }
+
         match elems.as_slice() {
             [] => {
                 if let Some(slots) = slots {
